@@ -5,6 +5,7 @@ import JaxVerif.Spec.Array
 import JaxVerif.Model.Call
 import JaxVerif.Generated.Rollback
 import JaxVerif.Lemmas.Rollback
+import JaxVerif.Lemmas.Idem
 
 namespace JV
 
@@ -51,6 +52,33 @@ theorem C04_array_idempotent (c : Catch) (tp : TreePath) (a : Ann) (o : ArrObj) 
     (h : instancecheck c false tp a o m = (.T, m')) :
     instancecheck c false tp a o m' = (.T, m') :=
   instancecheck_idempotent c tp a o m m' h
+
+/-- the same for a whole accepted pass over several annotated values (all parameters of a call):
+    checking them again in the context the pass produced accepts again and changes no binding -/
+theorem C04_seq_idempotent (c : Catch) (tp : TreePath) (l : List (Ann × ArrObj)) (m m' : Memo)
+    (h : checkSeq c tp l m = (.T, m')) : checkSeq c tp l m' = (.T, m') :=
+  checkSeq_idempotent c tp l m m' h
+
+/-- and for a PyTree of arrays: an accepted `PyTree[Dtype[cls, dims]]` check, repeated in the
+    bindings it produced, is accepted again and changes no binding -/
+theorem C04_pytree_idempotent (sk : Skel) (cls : String) (a : Ann) (ha : a.transparent = false)
+    (x : Obj) (hx : x.noFault = true) (hn : x ≠ .none) (st : CState)
+    (hst : st.flatten = false ∧ st.tp = none ∧ st.noCtx = false)
+    (h : (checkL sk (.pytree (.arr cls a) none) x st).2 = .T) :
+    let m' := (checkL sk (.pytree (.arr cls a) none) x st).1.memo
+    (checkL sk (.pytree (.arr cls a) none) x { st with memo := m' }).2 = .T ∧
+    (checkL sk (.pytree (.arr cls a) none) x { st with memo := m' }).1.memo = m' := by
+  intro m'
+  obtain ⟨hv, hm⟩ := pytree_arrays_seq sk cls a ha x hx hn st hst
+  rw [hv] at h
+  have hm' : m' = (checkSeq sk.arrayCatch none ((leavesWith (Obj.isArrOf cls) x).map fun o => (a, o.toArr cls)) st.memo).2 := hm h
+  have hseq : checkSeq sk.arrayCatch none ((leavesWith (Obj.isArrOf cls) x).map fun o => (a, o.toArr cls)) st.memo = (.T, m') := by
+    rw [hm', ← h]
+  have hidem := checkSeq_idempotent _ _ _ _ _ hseq
+  obtain ⟨hv2, hm2⟩ := pytree_arrays_seq sk cls a ha x hx hn { st with memo := m' } hst
+  dsimp only at hv2 hm2
+  rw [hidem] at hv2 hm2
+  exact ⟨hv2, hm2 rfl⟩
 
 /-- a PyTree check that answers False, raises AnnotationError, or raises an exception the handler
     covers leaves the bindings (axes *and* structure names) exactly as they were — whatever the
